@@ -539,7 +539,17 @@ def _skipped_values_seeded(loop, storage: ast.expr, f: Func) -> bool:
     k = _tail_slice(loop.iter)
     if not k:
         return True
-    if k != 1 or not isinstance(storage, ast.Name):
+    if k != 1:
+        return False
+    # S.append(X[0]) in front of the loop (S the storage the loop appends to): the one skipped value is stored first
+    for n in walk_own(f.node):
+        if isinstance(n, ast.Expr) and isinstance(n.value, ast.Call) and isinstance(n.value.func, ast.Attribute) \
+                and n.value.func.attr == "append" and src(n.value.func.value) == src(storage) and len(n.value.args) == 1 \
+                and before(f.node, n, loop):
+            a = n.value.args[0]
+            if isinstance(a, ast.Subscript) and const_value(a.slice, None) == 0 and src(a.value) == src(loop.iter.value):
+                return True
+    if not isinstance(storage, ast.Name):
         return False
     seeds = [n for n in walk_own(f.node) if isinstance(n, ast.Assign) and any(isinstance(t, ast.Name) and t.id == storage.id for t in n.targets)]
     if len(seeds) != 1 or not before(f.node, seeds[0], loop):
@@ -708,9 +718,12 @@ def _is_gather_of(e, f: Func, fld: str) -> bool:
             and e.elt.slice.id == e.generators[0].target.id
     if isinstance(e, ast.Name):
         inits, apps, other = [], [], []
+        from ..util import iter_stores
+        fl_ = Flow(f.node)
+        for t_, v_, n in iter_stores(f.node):                    # also  a, b = [], []
+            if isinstance(t_, ast.Name) and t_.id == e.id:
+                (inits if isinstance(v_, ast.List) and not v_.elts else other).append(n)
         for n in walk_own(f.node):
-            if isinstance(n, ast.Assign) and any(isinstance(t, ast.Name) and t.id == e.id for t in n.targets):
-                (inits if isinstance(n.value, ast.List) and not n.value.elts else other).append(n)
             if isinstance(n, ast.Call) and isinstance(n.func, ast.Attribute) and isinstance(n.func.value, ast.Name) and n.func.value.id == e.id:
                 if n.func.attr == "append" and len(n.args) == 1:
                     apps.append(n)
@@ -721,7 +734,8 @@ def _is_gather_of(e, f: Func, fld: str) -> bool:
         for a in apps:
             v = a.args[0]
             loop = _enclosing_loop(a)
-            if not (isinstance(v, ast.Subscript) and dotted(v.value) == (f.self_name, fld) and isinstance(v.slice, ast.Name)
+            base_ = fl_.expand(v.value) if isinstance(v, ast.Subscript) and isinstance(v.value, ast.Name) else getattr(v, "value", None)
+            if not (isinstance(v, ast.Subscript) and dotted(base_) == (f.self_name, fld) and isinstance(v.slice, ast.Name)
                     and isinstance(loop, ast.For) and isinstance(loop.target, ast.Name) and loop.target.id == v.slice.id
                     and _enclosing_if(a) is None):
                 return False
